@@ -153,6 +153,7 @@ class Analyzer:
         self.nontrivial = set()
         self.writers = set()
         self.holes = {}
+        self.calls = {}
         self.dropped = {}
         self.cur = None
 
@@ -632,18 +633,27 @@ class Analyzer:
         # the rule is per function: every emitter is balanced on its own, so a caller takes its callees as balanced text
         # (an unbalanced callee is reported once, at the callee)
         wrote = False
+        summ = set()
         for g in cands:
-            self.summary(g)
+            summ |= self.summary(g)
+            self.calls.setdefault(self.cur.qual, set()).add(g.qual)
             if g.qual in self.writers:
                 wrote = True
         if wrote:
             self.writers.add(self.cur.qual)
-        summ = {("", "")}
+        # a callee that opens or closes brackets for its caller (a non-empty summary) is applied here, so that helper pairs
+        # (`open_x()` .. `close_x()`) are balanced where they are used; whether an artefact is balanced is decided at the roots
+        if not summ or len(summ) > 4:
+            summ = {("", "")}
         tgt_fn = env.get("hole_target")
         out = []
         for s in cur:
             tgt = next((b for b in out_bufs if b in s.bufs), None) or (tgt_fn(s) if tgt_fn else "$w")
-            out.append(inline(s, tgt, ("", "", "", "x"), mark=False) if wrote else s)
+            for sm in summ:
+                if sm != ("", ""):
+                    out.append(inline(s, tgt, (sm[0], sm[1], "", "x"), mark=False))
+                else:
+                    out.append(inline(s, tgt, ("", "", "", "x"), mark=False) if wrote else s)
         cur = dedup(out)
         for c in clos:
             sub = dict(env, closures=dict(env["closures"]), ret=[])
